@@ -191,6 +191,8 @@ class Runner(object):
                 kw['maxsize'] = cfg['maxsize']
         self.deco = cls(*args, **kw)
         self.f = self.deco(self.probe.fn)
+        if getattr(self.f, '__wrapped__', None) is not self.probe.fn:
+            self.wrapped_mismatch = True
 
     # -- observation helpers --------------------------------------------------------------
     def cache(self):
@@ -283,6 +285,9 @@ class Runner(object):
         if self.construct_error is not None:
             self._construct_failed()
             return self
+        self.note('c18_wrapped_checks')
+        if getattr(self, 'wrapped_mismatch', False):
+            self.violation('C18', 'wrapped-is-not-the-original', '__wrapped__ is not the decorated function')
         for i, op in enumerate(ops):
             if i in self.skip:
                 self.obs.append(None)
